@@ -75,20 +75,16 @@ Proof. vm_compute. repeat split. Qed.
 Example C21_partial_nonvacuous :
   let pkg := [s "third_party"; s "go+x"] in
   let p := [Seg (map ALit (s "src")); DStar; Seg txt_pat] in
-  fragment pkg p = true /\ compiles pkg p = true
+  forallb (fun pkg => forallb (fun p => implb (fragment pkg p) (compiles pkg p)) sweep_pats)
+          [[]; [s "pkg"]; [s "third_party"; s "go+x"]] = true
+  /\ fragment pkg p = true /\ compiles pkg p = true
   /\ segs_match p [s "src"; s "a"; s "b"; s "c.txt"] = true
   /\ segs_match p [s "src"; s "c.txt"] = true
   /\ segs_match p [s "src"; s "a"; s "b"; s "c.go"] = false
-  /\ pattern_to_matcher (root_str pkg) (render p)
-     = Some (toks_of pkg p)
-  /\ forallb (fun pkg => forallb (fun p => implb (fragment pkg p) (compiles pkg p)) sweep_pats)
-             [[]; [s "pkg"]; [s "third_party"; s "go+x"]] = true
+  /\ pattern_to_matcher (root_str pkg) (render p) = Some (toks_of pkg p)
   (* a sibling that merely shares a name prefix with a sub-package is not inside it; a file in a hidden
      directory is not hidden for isHidden *)
   /\ is_in_directories (s "p/sub2/a.txt") [s "p/sub"] = false
   /\ is_in_directories (s "p/sub/a.txt") [s "p/sub"] = true
   /\ is_hidden (s "p/.hid/x.txt") = false /\ is_hidden (s "p/d/.x.txt") = true.
-Proof.
-  cbv zeta. repeat match goal with |- _ /\ _ => split end; try (vm_compute; reflexivity).
-  exact (proj1 compiles_sweep).
-Qed.
+Proof. cbv zeta. split; [exact (proj1 compiles_sweep)|]. vm_compute. repeat split. Qed.
